@@ -140,3 +140,48 @@ def pairs_body(ctx, d):
 @CHECK.enum("grid", gen_grid)
 def grid(ctx, d):
     _body(ctx, d)
+
+
+# ------------------------------------------------------------------------------------------------
+# re-oriented copies (deepcopy + state reassignment, as frame interpolation does) and objects that were already used
+# with other transforms: the weight must depend on the current physical orientations only
+# (added after a seeded change memoised the heading on the object)
+# ------------------------------------------------------------------------------------------------
+
+
+@CHECK.given("reposed_copies", lambda tier: pairs(tier), quick=250, thorough=30000)
+def reposed_copies(ctx, d):
+    import copy
+
+    from pyquaternion import Quaternion
+
+    eo, go = _obj(d["ye"], d["qse"], [0.0, 0.0]), _obj(d["yg"], d["qsg"], [0.0, 0.0])
+    e, g = D.obj3d(eo), D.obj3d(go)
+    first = _weight(ctx, e, g, "TPMetricsAph.get_value(first use)")
+    if first is None:
+        return
+    ctx.mark_nontrivial(abs(math.remainder(d["ye"] - d["yg"], 2 * PI)) > 1e-3)
+    # estimate re-oriented to the ground truth's yaw + offset
+    for off in (0.0, PI / 2, -2.5):
+        y2 = math.atan2(math.sin(d["yg"] + off), math.cos(d["yg"] + off))
+        e2 = copy.deepcopy(e)
+        q = G.q_from_yaw(y2, d["qse"])
+        with ctx.under_test("re-orient a deep copy"):
+            e2.state.orientation = Quaternion(q[0], q[1], q[2], q[3])
+        r = _weight(ctx, e2, g, "TPMetricsAph.get_value(re-oriented copy)")
+        if r is None:
+            continue
+        wref = 1.0 - G.absdiff_angle(y2, G.yaw_of(D.obj_quat(go))) / PI
+        ctx.require(abs(r[0] - wref) <= TOL, "reposed:aph-weight", lambda: f"estimate re-oriented to yaw {y2}: weight {r[0]} vs {wref} (weight before the change: {first[0]})")
+        if r[1] is not None:
+            ctx.require(abs(abs(float(r[1][2])) - G.absdiff_angle(y2, d["yg"])) <= TOL, "reposed:yaw-error", lambda: f"yaw error {r[1][2]} after re-orientation to {y2} (GT yaw {d['yg']})")
+    # the same map-frame objects queried with the frame's real transforms first, then scored
+    ego = d["ego"]
+    em, gm = D.obj3d(eo, "map", ego), D.obj3d(go, "map", ego)
+    tr = D.transforms(ego)
+    with ctx.under_test("get_heading_bev(transforms)"):
+        em.get_heading_bev(tr)
+    r2 = _weight(ctx, em, gm, "TPMetricsAph.get_value(map frame, after a heading query)", tr=tr)
+    if r2 is not None:
+        wref = 1.0 - G.absdiff_angle(d["ye"], d["yg"]) / PI
+        ctx.require(abs(r2[0] - wref) <= TOL, "reposed:aph-weight-after-heading-query", lambda: f"map-frame weight {r2[0]} vs {wref} after get_heading_bev(transforms) was called on the estimate only (ego yaw {ego[2]})")
